@@ -136,8 +136,30 @@ func c11Exec(tpls map[string]string) (string, error, string, []string) {
 	return out, err, pan, log
 }
 
+// c11ArgKinds: what can stand as an argument of a macro call, with the text and truth value the parameter then has
+var c11ArgKinds = [][3]string{{"true", "1", "T"}, {"false", "", "F"}, {"TRUE", "1", "T"}, {"null", "", "F"}, {"none", "", "F"}, {"1", "1", "T"}, {"1.5", "1.5", "T"}, {"'s'", "s", "T"},
+	{"x", "VX", "T"}, {"-1", "-1", "F"}, {"(true)", "1", "T"}, {"not false", "1", "T"}, {"{'k': 'v'}.k", "v", "T"}, {"[7][0]", "7", "T"}, {"x ~ 'y'", "VXy", "T"}, {"true ? 'a' : 'b'", "a", "T"}}
+
 func c11Run(c core.Case) core.Result {
 	switch c.Fam {
+	case "argkinds":
+		// every kind of argument (keyword literals in either case, numbers, strings, variables, compound expressions)
+		// at the first, middle and last position of every call form binds its value to the parameter at that position
+		form, pos, kind := c.N[0], c.N[1], c.N[2]
+		args := []string{"'a1'", "'a2'", "'a3'"}
+		args[pos] = c11ArgKinds[kind][0]
+		wantP := []string{"a1:T", "a2:T", "a3:T"}
+		wantP[pos] = c11ArgKinds[kind][1] + ":" + c11ArgKinds[kind][2]
+		prelude, call, _ := c11Call(form, strings.Join(args, ", "))
+		def := "{% macro m(p1, p2, p3) %}[{{ p1 }}:{{ p1 ? 'T' : 'F' }}|{{ p2 }}:{{ p2 ? 'T' : 'F' }}|{{ p3 }}:{{ p3 ? 'T' : 'F' }}]{% endmacro %}"
+		tpls := map[string]string{"mac": def, "main": def + prelude + "{{ " + call + " }}{% for q in [1] %}{{ " + call + " }}{% endfor %}"}
+		var log []string
+		out, err, pan := tryExec(c11Env(tpls, &log), "main", map[string]stick.Value{"x": "VX"})
+		want := "[" + strings.Join(wantP, "|") + "]"
+		if want += want; pan != "" || err != nil || out != want {
+			return core.Violation("binding", fmt.Sprintf("%q renders %q (%v %s), want %q", tpls["main"], out, err, pan, want))
+		}
+		return core.Okay(true, out)
 	case "call":
 		p, a, form, use := c.N[0], c.N[1], c.N[2], c.N[3]
 		style := 0
@@ -715,6 +737,13 @@ func c11Levels(tier string) []core.Level {
 			for _, n := range []int{1, 2, 3, 4, 5, 6, 101, 150} {
 				for form := 0; form < 4; form++ {
 					emit(core.Case{Fam: "stateful", N: []int{n, form}})
+				}
+			}
+			for form := 0; form < 4; form++ {
+				for pos := 0; pos < 3; pos++ {
+					for kind := range c11ArgKinds {
+						emit(core.Case{Fam: "argkinds", N: []int{form, pos, kind}})
+					}
 				}
 			}
 		}},
